@@ -69,6 +69,11 @@ var tokText = map[string]map[string]string{
 		"style": `<style xml:id="s1" tts:color="red"/>`, "style-unkparent": `<style xml:id="s2" style="nobody"/>`, "style-selfparent": `<style xml:id="s3" style="s3"/>`,
 		"region": `<region xml:id="r1" style="s1"/>`, "region-unkstyle": `<region xml:id="r2" style="nobody"/>`, "meta": `<metadata><ttm:title>T</ttm:title></metadata>`, "junk-element": `<foo bar="1"><p/></foo>`,
 		"style-1token": `<style xml:id="s4" tts:extent="auto" tts:origin="100%" tts:fontSize="x"/>`,
+		// geometry with fewer or more than two tokens under a vertical writing mode (which swaps the two coordinates)
+		"style-1token-tb":  `<style xml:id="s5" tts:extent="auto" tts:origin="auto" tts:writingMode="tbrl"/>`,
+		"region-1token-tb": `<region xml:id="r3" tts:origin="auto" tts:extent="50%" tts:writingMode="tblr"/>`,
+		"p-1token-tb":      `<p begin="1s" end="2s" tts:origin="10%" tts:extent="" tts:writingMode="tb">x</p>`,
+		"style-3token-tb":  `<style xml:id="s6" tts:extent="1% 2% 3%" tts:origin=" 1%  2% " tts:writingMode="tbrl"/>`,
 	},
 }
 
